@@ -7,6 +7,9 @@
 typedef unsigned char u8_t;
 typedef unsigned int u32_t;
 typedef unsigned long long u64_t;
+#ifdef WENCRY_VERIF
+struct wv_probe;
+#endif
 // 将x循环左移i位
 
 #define lrot(x, i) (((x) << (i)) | ((x) >> (32 - (i))))
@@ -18,6 +21,9 @@ typedef unsigned long long u64_t;
   ((u32_t)b0) | ((u32_t)b1 << 8) | ((u32_t)b2 << 16) | ((u32_t)b3 << 24)
 class Hashmaster
 {
+#ifdef WENCRY_VERIF
+  friend struct wv_probe;
+#endif
   u8_t hashblock[64];
   buffer64 *hashbuf;
 
@@ -43,6 +49,9 @@ public:
 
 class sha1hash : public Hashmaster
 {
+#ifdef WENCRY_VERIF
+  friend struct wv_probe;
+#endif
   u32_t h[5];
   u32_t w[80];
   union
@@ -69,6 +78,9 @@ public:
 
 class md5hash : public Hashmaster
 {
+#ifdef WENCRY_VERIF
+  friend struct wv_probe;
+#endif
   u32_t h[4];
   union
   {
@@ -92,6 +104,9 @@ public:
 
 class sha256hash : public Hashmaster
 {
+#ifdef WENCRY_VERIF
+  friend struct wv_probe;
+#endif
   static const u32_t k[64];
   u32_t h[8];
   u32_t w[64];
